@@ -11,7 +11,9 @@ import (
 	"verif/harness/internal/rng"
 )
 
-var c04Strings = []string{"abc", "x y", "a/b?c&d=e", "100%", "é", "+1", "a=b", "q#r", "tab\there", "pipe|d", "semi;colon", "c,d"}
+var c04Strings = []string{"abc", "x y", "a/b?c&d=e", "100%", "é", "+1", "a=b", "q#r", "tab\there", "pipe|d", "semi;colon", "c,d",
+	// white space at either end is part of a string value
+	"todo ", " lead", " -", "two\n"}
 
 func goCleanFor(sep string, s string) bool {
 	return s != "" && strings.TrimSpace(s) == s && !strings.Contains(s, sep)
@@ -43,6 +45,9 @@ func c04Value(r *rng.R, p *PSpecJ) interface{} {
 				continue
 			}
 			if p.In == "header" && !isASCII(s) {
+				continue
+			}
+			if p.In == "header" && strings.TrimSpace(s) != s { // net/http trims header values on the wire
 				continue
 			}
 			ok = append(ok, s)
